@@ -80,6 +80,10 @@ class Gen:
         n = self.t.intrange(lo, hi, "dur")
         if self.t.chance(self.f["seconds"], 8, "dur.seconds"):
             sec = Fraction(n) * Fraction(self.timestep)
+            if self.t.chance(1, 2, "dur.nonmultiple"):
+                # not a multiple of the time step: the statement lasts until the first step
+                # at which that many simulated seconds have elapsed (still n steps)
+                sec -= Fraction(self.t.choice([1, 2, 3], "dur.frac"), 4) * Fraction(self.timestep)
             return [str(Decimal(sec.numerator) / Decimal(sec.denominator)), "seconds"]
         return [n, "steps"]
 
@@ -241,6 +245,9 @@ class Gen:
             form = self.t.choice(["uniform", "options", "range"], "draw.form")
             k = self.t.intrange(2, 3, "draw.k")
             base = self.t.intrange(0, 5, "draw.base")
+            if self.f.get("draw_edges") and self.t.chance(1, 2, "draw.edge"):
+                # values around the width boundaries of the integer codec
+                base = self.t.choice([251, 252, 253, 32766, -32770, 2147483646], "draw.edge.base")
             if form == "options":
                 vals = [[base + i, self.t.intrange(1, 3, "draw.w")] for i in range(k)]
             else:
